@@ -52,6 +52,7 @@ fn main() {
                 .unwrap_or_default();
             let prop = props::lookup(&args[2]).expect("unknown property");
             let ctx = Ctx::new(&args[2], tier, seed, shard, nshards, driver::load_known(), skip);
+            ctx.fast_forward.set(args.get(8).and_then(|x| x.parse().ok()).unwrap_or(0));
             prop.run(&ctx);
             ctx.finish();
         }
